@@ -11,7 +11,7 @@ std::string eval_fn(std::string const &fn, char const k, std::vector<ulong> cons
   if (k == 'p' && (v.size() > 3 || !all_lt3(v))) return bad;
   if ((k == 'v' || k == 'l' || k == 'd' || k == 'f' || k == 'm' || k == 's') && !all_lt3(v)) return bad;
 
-  for (auto const part : {&c16::eval_a, &c16::eval_b, &c16::eval_c, &c16::eval_d, &c16::eval_e, &c16::eval_f, &c16::eval_g})
+  for (auto const part : {&c16::eval_a, &c16::eval_b, &c16::eval_c, &c16::eval_d, &c16::eval_e, &c16::eval_f, &c16::eval_g, &c16::eval_h})
     if (auto r{part(fn, k, ps, v)}; r.has_value())
       return *r;
   return bad;
@@ -279,6 +279,63 @@ std::string eval_m(std::string const &fn, std::vector<ulong> const &ps, ulong co
     seq calls;
     auto const r{con::get_or_insert_with_result(m, key, [&calls](int const k) { calls.push_back(k); return (k + 1) % 3; })};
     return std::to_string(r.element()) + "," + b01(r.inserted()) + "|" + encode_map(m) + "|" + ds(calls);
+  }
+  if (fn == "goicb" && ps.size() == 2)
+  {
+    // create looks at the map it is called for (size, is the key there?) and throws at its T-th call (T = 0: never);
+    // after an exception the call is repeated once
+    int const K{static_cast<int>(ps[0])};
+    ulong const T{ps[1]};
+    if (ps[0] >= 4 || T > 2) return bad;
+    ulong calls = 0;
+    std::string seen;
+    auto const create = [&](int const k) {
+      seen += (seen.empty() ? "" : ",") + std::to_string(m.size()) + "." + std::to_string(m.count(k));
+      ++calls;
+      if (T != 0 && calls == T) throw 0;
+      return (k + 1) % 3;
+    };
+    std::string out;
+    for (int attempt = 0; attempt < 2; ++attempt)
+    {
+      try
+      {
+        auto const r{con::get_or_insert_with_result(m, K, create)};
+        out += std::to_string(r.element()) + "," + b01(r.inserted()) + "|" + encode_map(m);
+        break;
+      }
+      catch (int)
+      {
+        out += "exc|" + encode_map(m) + ";";
+      }
+    }
+    return out + "|" + std::to_string(calls) + "|" + (seen.empty() ? "-" : seen);
+  }
+  if ((fn == "mapiterx" || fn == "mapiter2x") && ps.size() == 2)
+  {
+    ulong const R = ps[0], T = ps[1];
+    if (R >= 8 || T > 4) return bad;
+    ulong calls = 0;
+    std::string log, pre;
+    auto const note = [&](int const key, int const value) {
+      // what the action sees of the map: its size and whether the current entry is (still) in it
+      log += (log.empty() ? "" : ",") + std::to_string(value) + ":" + std::to_string(m.size()) + "." + std::to_string(key < 0 ? 1 : m.count(key));
+      ++calls;
+      if (T != 0 && calls == T) throw 0;
+      return bit(R, value) ? alg::update_action::remove : alg::update_action::keep;
+    };
+    try
+    {
+      if (fn == "mapiterx")
+        alg::map_iteration(m, [&](std::pair<int const, int> const &e) { return note(e.first, e.second); });
+      else
+        alg::map_iteration_second(m, [&](int const &e) { return note(-1, e); });
+    }
+    catch (int)
+    {
+      pre = "exc|";
+    }
+    return pre + encode_map(m) + "|" + (log.empty() ? "-" : log);
   }
   if (fn == "keyset" && ps.empty())
     return ds(con::key_set<std::set<int>>(m));
@@ -635,6 +692,31 @@ std::string handle_inner(std::vector<std::string> const &t)
     if (!K || !V || *K > 3 || *V > 2) return bad;
     fcppt::container::get_or_insert(st->m, static_cast<int>(*K), [](int) { ++st->calls; return 0; }) = static_cast<int>(*V);
     return encode_map(st->m);
+  }
+  if (op == "imgetx" && t.size() == 3)
+  {
+    // insert() looks at the vector it is called for and throws at its T-th call within this get (T = 0: never)
+    auto const i{to_nat(t[1])}, T{to_nat(t[2])};
+    if (!i || !T || *i > 64 || *T > 8) return bad;
+    using im_type = fcppt::container::index_map<int>;
+    ulong calls = 0;
+    std::string seen;
+    std::string out;
+    try
+    {
+      int &r{st->im.get(*i, im_type::insert_function{[&] {
+        seen += (seen.empty() ? "" : ",") + std::to_string(st->im.impl().size());
+        ++calls;
+        if (*T != 0 && calls == *T) throw 0;
+        return gen_next(st->g);
+      }})};
+      out = im_show(r, *i);
+    }
+    catch (int)
+    {
+      out = "exc " + std::to_string(st->im.impl().size()) + "|" + nl(st->im.impl());
+    }
+    return out + "|" + (seen.empty() ? "-" : seen);
   }
   if (op == "reset" && t.size() == 1)
   {
